@@ -15,24 +15,6 @@ def _(c):
     c.ensures("result == all(isinst(x, typ) for x in elts)", name="all_instances")
 
 
-@contract("method:is_assignable", props=P, kind="assumed")
-def _(c):
-    c.param("self", "val"); c.param("other", "val"); c.param("ctx", "val")
-    c.returns("bool")
-    c.functional = True
-    c.ensures("implies(result and static(self) and static(other), subset(other, self))", name="sound")
-    c.assume("Value.is_assignable is sound for membership between static (Any-free, leniency-free) values: this is property C04, proved there for the can_assign kernels under contract and assumed for the rest")
-
-
-@contract("method:can_assign", props=P, kind="assumed")
-def _(c):
-    c.param("self", "val"); c.param("other", "val"); c.param("ctx", "val")
-    c.returns("val")
-    c.functional = True
-    c.ensures("implies(not is_error(result) and static(self) and static(other), subset(other, self))", name="sound")
-    c.assume("Value.can_assign is sound for membership between static values (C04)")
-
-
 @contract("pyanalyze.typevar.remove_redundant_solutions", props=P)
 def _(c):
     c.param("solutions", "seq")
